@@ -237,6 +237,21 @@ pub(crate) fn selected_sheet_after_move(selected: u32, from: u32, to: u32) -> u3
     }
 }
 
+/// An area that lies inside the grid (range operations check it before changing anything)
+pub(crate) fn check_area(range: &Area) -> Result<(), String> {
+    let inside = range.width >= 1
+        && range.height >= 1
+        && range.row >= 1
+        && range.column >= 1
+        && range.row + range.height - 1 <= LAST_ROW
+        && range.column + range.width - 1 <= LAST_COLUMN;
+    if inside {
+        Ok(())
+    } else {
+        Err("Area out of boundaries".to_string())
+    }
+}
+
 impl<'a> Debug for UserModel<'a> {
     fn fmt(&self, f: &mut std::fmt::Formatter<'_>) -> std::fmt::Result {
         f.debug_struct("UserModel").finish()
@@ -1054,6 +1069,7 @@ impl<'a> UserModel<'a> {
     /// * [UserModel::range_clear_all]
     /// * [UserModel::range_clear_contents]
     pub fn range_clear_formatting(&mut self, range: &Area) -> Result<(), String> {
+        check_area(range)?;
         let sheet = range.sheet;
         let mut diff_list = Vec::new();
         if range.row == 1 && range.height == LAST_ROW {
@@ -1668,6 +1684,13 @@ impl<'a> UserModel<'a> {
         let [row_start, column_start, row_end, column_end] = range;
         let last_row = row_end.max(row_start + styles_height - 1);
         let last_column = column_end.max(column_start + styles_width - 1);
+        check_area(&Area {
+            sheet,
+            row: row_start,
+            column: column_start,
+            width: last_column - column_start + 1,
+            height: last_row - row_start + 1,
+        })?;
 
         let mut diff_list = Vec::new();
         for row in row_start..=last_row {
@@ -1734,6 +1757,7 @@ impl<'a> UserModel<'a> {
         style_path: &str,
         value: &str,
     ) -> Result<(), String> {
+        check_area(range)?;
         let sheet = range.sheet;
         let mut diff_list = Vec::new();
         if range.row == 1 && range.height == LAST_ROW {
